@@ -267,6 +267,9 @@ func runClose(c CloseCase) (st closeStats, v *Violation) {
 				return st, viol("open-error|open|"+errClass(err), 0, "OpenStore: %v", err)
 			}
 			s.Start()
+			if (int(c.Cfg.Bits)+len(c.Ops))%3 == 0 {
+				s.Start() // a second Start must not start a second flusher
+			}
 			pc := newPointCounter()
 			pc.install()
 			apply(s, c.Ops)
